@@ -37,7 +37,7 @@ def cdf(dist, x):
     return float(d.cdf(x))
 
 
-def make_chain(rnd):
+def make_chain(rnd, force_same=False):
     """(text, description): prefix or end-group start, 1-2 blocks of one directed repeat unit each"""
     nb = rnd.choice([1, 1, 2])
     start = rnd.choice(["prefix", "prefix", "H_group", "heavy_group", "alt_start"])
@@ -53,6 +53,21 @@ def make_chain(rnd):
         w1, w2 = rnd.choice([(3, 1), (1, 4), (2, 0.5), (1, 1)])
         text = "{[][<]" + u + "[>]; [<|" + repr(float(w1)) + "|][H], [<|" + repr(float(w2)) + "|]F [>]}" + f"|{fam}({', '.join(repr(float(a)) for a in args)})|" + rnd.choice(["CO", "[Si]"])
         return text, dict(start=start, blocks=[dict(unit=u, mass=mass, fam=fam, args=args, start_group="[H]")], weights=(w1, w2))
+    if force_same or (start == "prefix" and nb == 2 and rnd.random() < 0.5):
+        # two consecutive blocks of the SAME repeat unit (laws may differ): a chain of n units is produced by every cut (i, n - i)
+        u = rnd.choice(["C(N)C", "C(=O)C", "OCC", "CC(F)", "CC(O)", "C(Cl)C"])
+        from rdkit import Chem
+        from rdkit.Chem import Descriptors
+        mass = Descriptors.HeavyAtomMolWt(Chem.MolFromSmiles(u))
+        blocks = []
+        text = rnd.choice(["OCC", "N", "C[Si]"])
+        for b in range(2):
+            fam, mk = rnd.choice([d for d in DISTS if d[0] in ("gauss", "uniform", "poisson", "flory_schulz")])
+            args = mk(mass, rnd)
+            blocks.append(dict(unit=u, mass=mass, fam=fam, args=args))
+            text += "{[<][<]" + u + "[>][>]}" + f"|{fam}({', '.join(repr(float(a)) for a in args)})|"
+        text += rnd.choice(["[Si]", "F", "S"])
+        return text, dict(start="same_unit", blocks=blocks)
     blocks = []
     text = ""
     for b in range(nb):
@@ -95,8 +110,9 @@ def check(rep):
     distinct = set()
     shape_hist = {}
     n_mol = 70 if quick else 1500
-    for k in range(n_mol):
-        text, desc = make_chain(rnd)
+    n_same = 14 if quick else 200
+    for k in range(n_mol + n_same):
+        text, desc = make_chain(rnd, force_same=k >= n_mol)
         ident = {"text": text}
         try:
             mol = gbigsmiles.Molecule(text)
@@ -113,7 +129,10 @@ def check(rep):
         res = [r.gen.graph.nodes[n]["big_smiles"] for n in sorted(r.gen.graph.nodes())]
         stoch = [e for e in mol._elements if isinstance(e, Stochastic)]
         ns = [sum(1 for s in res if s == str(e.repeat_tokens[0])) for e in stoch]
-        if len(set(str(e.repeat_tokens[0]) for e in stoch)) != len(stoch) or max(ns) > (7 if quick else 12) or sum(ns) > (9 if quick else 16):
+        if desc["start"] == "same_unit":
+            if ns[0] > (8 if quick else 12):
+                continue
+        elif len(set(str(e.repeat_tokens[0]) for e in stoch)) != len(stoch) or max(ns) > (7 if quick else 12) or sum(ns) > (9 if quick else 16):
             continue
         try:
             with fw.time_limit(120):
@@ -133,7 +152,7 @@ def check(rep):
         sym_tags = {"symmetric_token_pattern"} if any(_sym(t) for t in genrun.tokens_of(mol)) else set()
         # ---- closed form of the code (model) and of the generator
         m0 = 0.0
-        if desc["start"] != "prefix":
+        if desc["start"] not in ("prefix", "same_unit"):
             m0 = Descriptors.HeavyAtomMolWt(Chem.MolFromSmiles(desc["blocks"][0]["start_group"]))
         code = gen = 1.0
         lines = []
@@ -147,9 +166,29 @@ def check(rep):
         shape_hist[shape] = shape_hist.get(shape, 0) + 1
         # a molecule that is mapped onto itself by reversing the chain is embedded twice by the search
         mh = Chem.MolFromSmiles(smi)
-        mult = len(mh.GetSubstructMatches(mh, uniquify=False, useChirality=False)) if desc["start"] == "prefix" else 1
+        mult = len(mh.GetSubstructMatches(mh, uniquify=False, useChirality=False)) if desc["start"] in ("prefix", "same_unit") else 1
         code *= mult
-        if desc["start"] == "prefix":
+        if desc["start"] == "same_unit":
+            # generation: block 1 makes i >= 1 units, block 2 the other n - i >= 1; the molecule does not tell the cut, so its probability is the sum over cuts
+            n, u = ns[0], desc["blocks"][0]["mass"]
+            cf = lambda e, j: cdf(e.distribution, j * u) - cdf(e.distribution, (j - 1) * u)
+            gf = lambda e, j: cdf(e.distribution, u) if j == 1 else cf(e, j)
+            gen_s = sum(gf(stoch[0], i) * gf(stoch[1], n - i) for i in range(1, n))
+            code_s = mult * sum(cf(stoch[0], i) * cf(stoch[1], n - i) for i in range(1, n))
+            distinct.add((text, n))
+            corr_ok = abs(reported - code_s) <= 1e-6 * max(1e-12, code_s) + 1e-12 or bool(sym_tags)
+            if not corr_ok:
+                rep.fail("correspondence", f"reported {reported} vs closed form of the search {code_s} (sum over the {n - 1} cuts of {n} equal units into two blocks) for {smi} of {text}",
+                         ident, expected=code_s, observed=reported)
+            if abs(reported - gen_s) > 1e-6 * max(1e-9, gen_s) + 1e-10:
+                tags = set(sym_tags)
+                if mult > 1:
+                    tags.add("automorphic_embeddings_counted")
+                if any(cdf(e.distribution, 0.0) > 1e-9 for e in stoch):
+                    tags.add("first_interval_starts_at_cdf0")
+                rep.fail("oracle", f"{smi} of {text}: reported ensemble probability {reported:.6g}, generation produces it with probability {gen_s:.6g} (sum over cuts)", ident,
+                         expected=gen_s, observed=reported, tags=tags if corr_ok else set())
+        elif desc["start"] == "prefix":
             if abs(reported - code) > 1e-6 * max(1e-12, code) + 1e-12 and not sym_tags:
                 rep.fail("correspondence", f"reported {reported} vs closed form of the search {code} for {smi} of {text}", ident, expected=code, observed=reported)
             tags = set(sym_tags)
